@@ -214,19 +214,13 @@ func (b *builder) home(k Kind) (string, []string) {
 	plain := fmt.Sprintf("%s%d", namePrefix[k], id)
 	weird := func() string {
 		w := weirdNames[b.n(0, len(weirdNames)-1, "weird")]
-		if b.safeNames && strings.Contains((&url.URL{Fragment: w}).EscapedFragment(), "%") {
-			// known finding: reference keys are not normalised with respect to percent-encoding
-			b.excluded["percent-encoded-name-in-cycle"]++
-			w = []string{"a/b", "m~n", "~01", "x~1y", "q?x"}[len(w)%5]
-		}
+		// (names with a literal % or that need percent-encoding were excluded
+		// while percent-in-name-unescaped-twice / refkey-percent-spelling-not-
+		// normalised were open; both are fixed by 9e7ce7cd and generated freely)
 		if strings.Contains(w, "%") {
-			if !b.allow {
-				// known finding: a literal % in a name is unescaped twice
-				b.excluded["percent-in-name"]++
-				w = "pc_t"
-			} else {
-				b.tag("weird-name-percent")
-			}
+			b.tag("weird-name-percent")
+		} else if strings.Contains((&url.URL{Fragment: w}).EscapedFragment(), "%") {
+			b.tag("weird-name-needs-percent-encoding")
 		}
 		if b.expand && !b.allow {
 			// known finding: Expand derives component names from the escaped pointer
@@ -672,10 +666,8 @@ func (b *builder) headerUse(file, name string) *Node {
 		return b.headerBody(file)
 	}
 	f := e.final()
-	if !b.allow && len(f.useNames) > 0 && !f.useNames[strings.ToLower(name)] {
-		b.excluded["shared-header-different-names"]++
-		return b.headerBody(file)
-	}
+	// (one header component under several names was excluded while
+	// header-ref-cached-name was open; fixed by c40238d7, generated freely)
 	f.useNames[strings.ToLower(name)] = true
 	return b.refTo(file, e)
 }
@@ -1015,6 +1007,13 @@ func drawCase(t *rapid.T, profile string) Case {
 		}
 		item, pp := b.pathItemBody(nil, rootFile, secNames, true, true)
 		paths.Set(template(i, pp), item)
+	}
+	// structured shapes (gadgets.go)
+	if b.pct(30, "excursion") {
+		b.excursion(paths)
+	}
+	if b.pct(25, "sumtree") {
+		b.sumTree(paths)
 	}
 	if b.v31 && b.pct(25, "webhook") {
 		name := fmt.Sprintf("hook%d", b.next())
